@@ -234,6 +234,7 @@ fn real_threshold(allow_realloc: bool, max_nb_chunks: usize) -> Result<(usize, u
         interval: None,
         index_levels: None,
         creator: 2,
+        settings_first: false,
     };
     let sizes = vec![5 << 19; 40];
     let r = guarded(|| -> Result<(usize, u64), String> {
